@@ -87,13 +87,18 @@ def _key(s):
     return len(s) == 1 and s in "abc"
 
 
+def _kcell(k):
+    t = R.env_int("VP_K1")
+    return t is None or k == "abc"[t]
+
+
 _PREFIX = ["", "/r/sub-1/", "r.x/", "/a-b_c/"]     # directory part must not influence the parse
 
 
 def parse_roundtrip(k1: str, v1: str, k2: str, v2: str, n: int, suf: str, ext: str, d: int) -> bool:
     """
     pre: 0 <= n <= 2 and 0 <= d <= 3
-    pre: _envcell(cnt=n, dirx=d)
+    pre: _envcell(cnt=n, dirx=d) and _kcell(k1)
     pre: _key(k1) and _key(k2) and k1 != k2
     pre: _alnum(v1, 1, R.N(2)) and _alnum(v2, 1, R.N(2)) and _alnum(suf, 1, R.N(2)) and _alnum(ext, 1, R.N(2))
     post: _
@@ -128,7 +133,7 @@ def sidecar_applies(k1: str, v1: str, k2: str, v2: str, n_s: int, fk1: str, fv1:
                     n_f: int, ssuf: str, fsuf: str, sd: int, fd: int, itself: bool) -> bool:
     """
     pre: 0 <= n_s <= 2 and 0 <= n_f <= 2 and 0 <= sd <= 4 and 0 <= fd <= 4
-    pre: _envcell(ns=n_s, nf=n_f)
+    pre: _envcell(ns=n_s, nf=n_f, sd=sd)
     pre: _lab(k1) and _lab(v1) and _lab(k2) and _lab(v2) and _lab(fk1) and _lab(fv1) and _lab(fk2) and _lab(fv2)
     pre: _lab(ssuf) and _lab(fsuf)
     pre: k1 != k2 and fk1 != fk2
@@ -172,16 +177,16 @@ def _ndirs():
     return R.env_int("VP_NDIRS", len(_DIRS))
 
 
-def _scene(nsc, specs, fe, fsuf, fd):
+def _scene(nsc, specs, ssuf, fe, fsuf, fd):
     """real objects + reference records for `nsc` sidecars (in directory-list order) and one data file"""
     objs, recs, dir_dict, by_path = [], [], {}, {}
     for i in range(nsc):
-        e, suf, d = specs[i]
+        e, d = specs[i]
         pairs = _pairs(e)
         path = _path(d, "s%d_x.json" % i)
-        o = bids_stub.bare(BidsSidecarFile, path, suf, ".json", {k: v for k, v in pairs})
+        o = bids_stub.bare(BidsSidecarFile, path, ssuf, ".json", {k: v for k, v in pairs})
         objs.append(o)
-        recs.append((suf, _DIRS[d], pairs))
+        recs.append((ssuf, _DIRS[d], pairs))
         dir_dict.setdefault("/".join((_ROOT,) + _DIRS[d]), []).append(o)
         by_path[path] = o
     fpairs = _pairs(fe)
@@ -189,18 +194,29 @@ def _scene(nsc, specs, fe, fsuf, fd):
     return objs, recs, dir_dict, by_path, fobj, fpairs
 
 
-def sidecar_chain(nsc: int, ae: str, asuf: str, ad: int, be: str, bsuf: str, bd: int, ce: str, csuf: str, cd: int,
+def _unused_fixed(nsc, ae, ad, be, bd, ce, cd):
+    """arguments of absent sidecars are pinned so that they do not multiply paths"""
+    if nsc < 3 and not (ce == "" and cd == 0):
+        return False
+    if nsc < 2 and not (be == "" and bd == 0):
+        return False
+    if nsc < 1 and not (ae == "" and ad == 0):
+        return False
+    return True
+
+
+def sidecar_chain(nsc: int, ae: str, ad: int, be: str, bd: int, ce: str, cd: int, ssuf: str,
                   fe: str, fsuf: str, fd: int) -> bool:
     """
     pre: 0 <= nsc <= R.env_int("VP_NSC", 3)
     pre: 0 <= ad < _ndirs() and 0 <= bd < _ndirs() and 0 <= cd < _ndirs() and 0 <= fd < _ndirs()
     pre: _envcell(fd=fd, ad=ad, bd=bd)
-    pre: _emap(ae, R.N(2)) and _emap(be, R.N(2)) and _emap(ce, R.N(2)) and _emap(fe)
-    pre: _one(asuf) and _one(bsuf) and _one(csuf) and _one(fsuf)
+    pre: _unused_fixed(nsc, ae, ad, be, bd, ce, cd)
+    pre: _emap(ae, R.N(2)) and _emap(be, R.N(2)) and _emap(ce, R.N(2)) and _emap(fe, R.M(2))
+    pre: _one(ssuf) and _one(fsuf)
     post: _
     """
-    objs, recs, dir_dict, by_path, fobj, fpairs = _scene(nsc, [(ae, asuf, ad), (be, bsuf, bd), (ce, csuf, cd)],
-                                                         fe, fsuf, fd)
+    objs, recs, dir_dict, by_path, fobj, fpairs = _scene(nsc, [(ae, ad), (be, bd), (ce, cd)], ssuf, fe, fsuf, fd)
     exp = M.chain(recs, fsuf, _DIRS[fd], fpairs)
     if exp is None:
         return True         # two applicable sidecars in one directory: BIDS forbids it, the property is silent
@@ -216,25 +232,35 @@ def sidecar_chain(nsc: int, ae: str, asuf: str, ad: int, be: str, bsuf: str, bd:
 _COLS = "abc"
 
 
-def _col(s):
-    return len(s) == 1 and s in _COLS
+def _cols(s, present):
+    """column names of one JSON file: a string of <= 2 distinct characters of "abc" (absent file: pinned to "")"""
+    if not present:
+        return s == ""
+    if len(s) > 2:
+        return False
+    for c in s:
+        if c not in _COLS[:R.env_int("VP_NCOLS", 3)]:
+            return False
+    return len(s) < 2 or s[0] != s[1]
 
 
-def _doc(n, c1, x1, c2, x2):
-    return [(c1, x1), (c2, x2)][:n]
+def _doc(cols, x1, x2):
+    return [(cols[i], (x1, x2)[i]) for i in range(len(cols))]
 
 
-def merge_deeper_wins(n0: int, c01: str, x01: int, c02: str, x02: int, n1: int, c11: str, x11: int, c12: str,
-                      x12: int, n2: int, c21: str, x21: int, c22: str, x22: int, nfiles: int) -> bool:
+_MERGE_PATHS = ["/d/s0_x.json", "/d/sub-1/s1_x.json", "/d/sub-1/ses-1/s2_x.json"]
+
+
+def merge_deeper_wins(nfiles: int, c0: str, x01: int, x02: int, c1: str, x11: int, x12: int,
+                      c2: str, x21: int, x22: int) -> bool:
     """
-    pre: 0 <= nfiles <= 3 and 0 <= n0 <= 2 and 0 <= n1 <= 2 and 0 <= n2 <= 2
-    pre: _envcell(nfiles=nfiles, n0=n0, n1=n1)
-    pre: _col(c01) and _col(c02) and _col(c11) and _col(c12) and _col(c21) and _col(c22)
-    pre: c01 != c02 and c11 != c12 and c21 != c22
+    pre: 0 <= nfiles <= 3
+    pre: _envcell(nfiles=nfiles, l0=len(c0), l1=len(c1))
+    pre: _cols(c0, nfiles >= 1) and _cols(c1, nfiles >= 2) and _cols(c2, nfiles >= 3)
     post: _
     """
-    contents = [_doc(n0, c01, x01, c02, x02), _doc(n1, c11, x11, c12, x12), _doc(n2, c21, x21, c22, x22)][:nfiles]
-    paths = ["/d/s0_x.json", "/d/sub-1/s1_x.json", "/d/sub-1/ses-1/s2_x.json"][:nfiles]
+    contents = [_doc(c0, x01, x02), _doc(c1, x11, x12), _doc(c2, x21, x22)][:nfiles]
+    paths = _MERGE_PATHS[:nfiles]
     docs = {}
     for i in range(len(paths)):
         docs[paths[i]] = {c: x for c, x in contents[i]}
@@ -244,14 +270,14 @@ def merge_deeper_wins(n0: int, c01: str, x01: int, c02: str, x02: int, n1: int, 
 
 
 # ------------------------------------------------------------------ 5. BidsFileGroup wiring: file -> merged sidecar
-def _contents(i, mask):
-    """columns 'a' (bit 0) and 'b' (bit 1) of sidecar i; the value names the sidecar it came from"""
-    out = []
-    if mask == 1 or mask == 3:
-        out.append(("a", {"HED": "S%da" % i}))
-    if mask == 2 or mask == 3:
-        out.append(("b", {"HED": "S%db" % i}))
-    return out
+# Fixed contents chosen so that the merged dict determines the chain and the relative order of any two members:
+# column "a" is defined by every sidecar, "p<i>" only by sidecar i, and each pair of sidecars shares one column
+# that the third does not define.  Every value names the sidecar it came from.
+_SHARED = [("a", "b", "d"), ("a", "b", "c"), ("a", "c", "d")]
+
+
+def _contents(i):
+    return [(c, {"HED": "S%d%s" % (i, c)}) for c in _SHARED[i] + ("p%d" % i,)]
 
 
 def _same_pairs(p, q):
@@ -263,46 +289,43 @@ def _same_pairs(p, q):
     return True
 
 
-def _kf_deepest(nsc, ae, asuf, ad, acols, be, bsuf, bd, bcols, ce, csuf, cd, ccols, fe, fsuf, fd):
+def _kf_deepest(nsc, ae, ad, be, bd, ce, cd, ssuf, fe, fsuf, fd):
     """C16-deepest-chain-only: some sidecar that applies to the data file does not apply to the deepest
-    applicable sidecar (its entities are not a subset of that sidecar's) and contributes a column value
-    the deeper ones do not override."""
-    specs = [(ae, asuf, ad, acols), (be, bsuf, bd, bcols), (ce, csuf, cd, ccols)][:nsc]
-    recs = [(suf, _DIRS[d], _pairs(e)) for e, suf, d, _ in specs]
+    applicable sidecar (its entities are not all present in that sidecar's own name)."""
+    specs = [(ae, ad), (be, bd), (ce, cd)][:nsc]
+    recs = [(ssuf, _DIRS[d], _pairs(e)) for e, d in specs]
     ch = M.chain(recs, fsuf, _DIRS[fd], _pairs(fe))
     if ch is None or len(ch) < 2:
         return False
     dsuf, ddir, dpairs = recs[ch[-1]]
-    kept = [i for i in ch if M.applicable(recs[i][0], recs[i][1], recs[i][2], dsuf, ddir, dpairs)]
-    full = M.merge([_contents(i, specs[i][3]) for i in ch])
-    part = M.merge([_contents(i, specs[i][3]) for i in kept])
-    return not _same_pairs(full, part)
+    for i in ch:
+        if not M.applicable(recs[i][0], recs[i][1], recs[i][2], dsuf, ddir, dpairs):
+            return True
+    return False
 
 
-def group_merged_sidecar(nsc: int, ae: str, asuf: str, ad: int, acols: int, be: str, bsuf: str, bd: int, bcols: int,
-                         ce: str, csuf: str, cd: int, ccols: int, fe: str, fsuf: str, fd: int) -> bool:
+def group_merged_sidecar(nsc: int, ae: str, ad: int, be: str, bd: int, ce: str, cd: int, ssuf: str,
+                         fe: str, fsuf: str, fd: int) -> bool:
     """
     pre: 0 <= nsc <= R.env_int("VP_NSC", 3)
     pre: 0 <= ad < _ndirs() and 0 <= bd < _ndirs() and 0 <= cd < _ndirs() and 0 <= fd < _ndirs()
-    pre: 0 <= acols <= 3 and 0 <= bcols <= 3 and 0 <= ccols <= 3
     pre: _envcell(fd=fd, ad=ad, bd=bd)
-    pre: _emap(ae, R.N(2)) and _emap(be, R.N(2)) and _emap(ce, R.N(2)) and _emap(fe)
-    pre: _one(asuf) and _one(bsuf) and _one(csuf) and _one(fsuf)
-    pre: not _known("C16-deepest-chain-only", _kf_deepest(nsc, ae, asuf, ad, acols, be, bsuf, bd, bcols, ce, csuf, cd, ccols, fe, fsuf, fd))
+    pre: _unused_fixed(nsc, ae, ad, be, bd, ce, cd)
+    pre: _emap(ae, R.N(2)) and _emap(be, R.N(2)) and _emap(ce, R.N(2)) and _emap(fe, R.M(2))
+    pre: _one(ssuf) and _one(fsuf)
+    pre: not _known("C16-deepest-chain-only", _kf_deepest(nsc, ae, ad, be, bd, ce, cd, ssuf, fe, fsuf, fd))
     post: _
     """
-    masks = [acols, bcols, ccols]
-    objs, recs, dir_dict, by_path, fobj, fpairs = _scene(nsc, [(ae, asuf, ad), (be, bsuf, bd), (ce, csuf, cd)],
-                                                         fe, fsuf, fd)
+    objs, recs, dir_dict, by_path, fobj, fpairs = _scene(nsc, [(ae, ad), (be, bd), (ce, cd)], ssuf, fe, fsuf, fd)
     exp = M.chain(recs, fsuf, _DIRS[fd], fpairs)
     if exp is None:
         return True         # two applicable sidecars in one directory: outside the property
     docs = {}
     for i in range(nsc):
-        docs[objs[i].file_path] = {c: x for c, x in _contents(i, masks[i])}
+        docs[objs[i].file_path] = {c: x for c, x in _contents(i)}
     with bids_stub.json_files(docs):
         g = bids_stub.FoundGroup(_ROOT, by_path, dir_dict, {fobj.file_path: fobj}, suffix="x")
-    want = M.merge([_contents(i, masks[i]) for i in exp])
+    want = M.merge([_contents(i) for i in exp])
     used = g.datafile_dict[fobj.file_path].sidecar
     if used is None:
         return want == []
@@ -311,12 +334,35 @@ def group_merged_sidecar(nsc: int, ae: str, asuf: str, ad: int, acols: int, be: 
 
 _T_PARSE = ["hed.tools.util.io_util.parse_bids_filename", "hed.tools.util.io_util._split_entity"]
 _T_APPL = ["hed.tools.bids.bids_sidecar_file.BidsSidecarFile.is_sidecar_for"]
+_T_WALK = ["hed.tools.bids.bids_file_group.BidsFileGroup.get_sidecars_from_path",
+           "hed.tools.bids.bids_file_group.BidsFileGroup._get_sidecar_for_obj",
+           "hed.tools.util.io_util.get_path_components"] + _T_APPL
+_T_MERGE = ["hed.models.sidecar.Sidecar.load_sidecar_files", "hed.models.sidecar.Sidecar.load_sidecar_file",
+            "hed.models.sidecar.Sidecar.__init__"]
+_T_GROUP = ["hed.tools.bids.bids_file_group.BidsFileGroup.__init__",
+            "hed.tools.bids.bids_sidecar_file.BidsSidecarFile.set_contents"] + _T_WALK + _T_MERGE
+
+_S_BARE = "BidsSidecarFile/BidsTabularFile objects are built with __new__ and given file_path, suffix, entity_dict " \
+          "(BidsFile.__init__ calls os.path.realpath, which lstat()s the path)"
+_S_DIRS = "directories are the fixed tree /d, /d/sub-1, /d/sub-1/ses-1, /d/sub-10, /d/sub-1/ses-2 (none exists on disk)"
+_S_JSON = "open() and json inside hed.models.sidecar are replaced by vp/bids_stub.json_files: reading path p yields " \
+          "the given decoded document"
+_S_FOUND = "BidsFileGroup's three discovery methods (_make_sidecar_dict, _make_sidecar_dir_dict, _make_datafile_dict; " \
+           "os.walk wrappers) return the given objects (vp/bids_stub.FoundGroup); the rest of __init__ is real"
+
+_WALK_BOUND_Q = ("0..2 sidecars, each in any of 4 directories (root, sub-1, sub-1/ses-1, sub-10) with an entity map of "
+                 "<= 1 entry, one common suffix; data file in any of the 4 directories with an entity map of <= %d "
+                 "entries and its own suffix; keys, values, suffixes any 1-character strings")
+_WALK_BOUND_T = ("0..3 sidecars, each in any of 5 directories (root, sub-1, sub-1/ses-1, sub-10, sub-1/ses-2) with an "
+                 "entity map of <= 1 entry, one common suffix; data file in any of the 5 directories with an entity "
+                 "map of <= 2 entries and its own suffix; keys, values, suffixes any 1-character strings")
 
 HARNESSES = [
     R.H("parse_total", _T_PARSE,
-        quick=R.tier(cells=R.str_cells(4, split1_from=3, split2_from=4), env={"VP_N": 4}, timeout=120,
+        quick=R.tier(cells=R.str_cells(4, split1_from=3, nclass=len(_PARSE_CLASSES) + 1), env={"VP_N": 4}, timeout=150,
                      bound="every string s over {a,B,-,_,.,space,/} with len(s) <= 4"),
-        thorough=R.tier(cells=R.str_cells(5, split1_from=3, split2_from=4), env={"VP_N": 5}, timeout=900,
+        thorough=R.tier(cells=R.str_cells(5, split1_from=3, split2_from=4, nclass=len(_PARSE_CLASSES) + 1),
+                        env={"VP_N": 5}, timeout=900,
                         bound="every string s over {a,B,-,_,.,space,/} with len(s) <= 5"),
         what="parse_bids_filename lets only HedFileError escape; on success it returns (suffix|None, ext, dict) with "
              "ext empty or starting with '.', and no '-', '_' or '/' inside suffix, keys or values",
@@ -325,20 +371,71 @@ HARNESSES = [
         outside="other alphabets (entity keys are hashed into a real dict, which makes CrossHair enumerate them; the "
                 "alphabet holds one representative per character class the parser distinguishes)"),
     R.H("parse_roundtrip", _T_PARSE,
-        quick=R.tier(cells=R.product_cells(R.int_cells("VP_CNT", 0, 2), R.int_cells("VP_DIRX", 0, 3)), env={"VP_N": 2}, timeout=120,
+        quick=R.tier(cells=R.product_cells(R.int_cells("VP_CNT", 0, 2), R.int_cells("VP_DIRX", 0, 3)),
+                     env={"VP_N": 1}, timeout=120,
                      bound="names <dir>k1-v1_k2-v2_suffix.ext with 0..2 entities, keys distinct in {a,b,c}, values, "
-                           "suffix and extension any [0-9A-Za-z]{1,2}, four directory prefixes"),
+                           "suffix and extension any [0-9A-Za-z]{1}, four directory prefixes"),
+        thorough=R.tier(cells=R.product_cells(R.int_cells("VP_CNT", 0, 2), R.int_cells("VP_DIRX", 0, 3),
+                                              R.int_cells("VP_K1", 0, 2)),
+                        env={"VP_N": 2}, timeout=1000, path_timeout=60,
+                        bound="as quick with values, suffix and extension any [0-9A-Za-z]{1,2}"),
         what="a well-formed BIDS name parses to exactly its suffix, its (case-normalised) extension and its entity map",
         oracle="models/bids_ref.py same_mapping", stubs=["ASCII-exact lower() accelerator vp/chx.py"],
         outside="longer labels; keys beyond {a,b,c}"),
     R.H("sidecar_applies", _T_APPL,
         quick=R.tier(cells=R.product_cells(R.int_cells("VP_NS", 0, 2), R.int_cells("VP_NF", 0, 2)),
-                     env={"VP_M": 1}, timeout=120,
-                     bound="sidecar and file entity maps of 0..2 entries with keys/values any string of length <= 1, "
-                           "suffixes any string of length <= 1, directories any of 5 fixed ones (root, sub-1, "
+                     env={"VP_M": 1}, timeout=150,
+                     bound="sidecar and file entity maps of 0..2 entries with keys/values any 1-character string, "
+                           "suffixes any 1-character string, directories any of 5 fixed ones (root, sub-1, "
                            "sub-1/ses-1, sub-10, sub-1/ses-2), or the sidecar tested against itself"),
+        thorough=R.tier(cells=R.product_cells(R.int_cells("VP_NS", 0, 2), R.int_cells("VP_NF", 0, 2),
+                                              R.int_cells("VP_SD", 0, 4)),
+                        env={"VP_M": 2}, timeout=1000, path_timeout=60,
+                        bound="as quick with keys, values and suffixes any string of 1..2 characters"),
         what="is_sidecar_for(f) <=> same suffix and sidecar directory is ancestor-or-self of f's directory and every "
              "sidecar entity occurs in f with the same value",
-        oracle="models/bids_ref.py applicable", stubs=["file objects built with __new__ (no realpath / lstat)"],
-        outside="entity maps with more than 2 entries"),
+        oracle="models/bids_ref.py applicable", stubs=[_S_BARE, _S_DIRS],
+        outside="entity maps with more than 2 entries; other directory shapes"),
+    R.H("sidecar_chain", _T_WALK,
+        quick=R.tier(cells=R.product_cells(R.int_cells("VP_FD", 0, 3), R.int_cells("VP_AD", 0, 3)),
+                     env={"VP_NSC": 2, "VP_N": 1, "VP_M": 1, "VP_NDIRS": 4}, timeout=150, bound=_WALK_BOUND_Q % 1),
+        thorough=R.tier(cells=R.product_cells(R.int_cells("VP_FD", 0, 4), R.int_cells("VP_AD", 0, 4),
+                                              R.int_cells("VP_BD", 0, 4)),
+                        env={"VP_NSC": 3, "VP_N": 1, "VP_M": 2, "VP_NDIRS": 5}, timeout=900, path_timeout=60,
+                        bound=_WALK_BOUND_T),
+        what="get_sidecars_from_path(file) == paths of the applicable sidecars, one per directory on the way from the "
+             "root to the file's directory, root first (inputs with two applicable sidecars in one directory are "
+             "skipped: BIDS forbids them and the property does not say which wins)",
+        oracle="models/bids_ref.py chain", stubs=[_S_BARE, _S_DIRS, "BidsFileGroup made with __new__; root_path and "
+                                                  "sidecar_dir_dict given (directory-list order = sidecar index order)"],
+        outside="sidecars with different suffixes inside one group (decided per pair by sidecar_applies); more than "
+                "1 entity per sidecar; directory discovery"),
+    R.H("merge_deeper_wins", _T_MERGE,
+        quick=R.tier(cells=R.int_cells("VP_NFILES", 0, 2) + R.product_cells(R.int_cells("VP_NFILES", 3, 3),
+                                                                             R.int_cells("VP_L0", 0, 2)),
+                     env={"VP_NCOLS": 2}, timeout=150,
+                     bound="0..3 JSON files listed root first, each with 0..2 distinct column names from {a,b} and "
+                           "arbitrary integer values"),
+        thorough=R.tier(cells=R.int_cells("VP_NFILES", 0, 1)
+                        + R.product_cells(R.int_cells("VP_NFILES", 2, 3), R.int_cells("VP_L0", 0, 2),
+                                          R.int_cells("VP_L1", 0, 2)),
+                        env={"VP_NCOLS": 3}, timeout=600,
+                        bound="0..3 JSON files listed root first, each with 0..2 distinct column names from {a,b,c} "
+                              "and arbitrary integer values"),
+        what="Sidecar(files=[root..leaf]).loaded_dict maps every column defined anywhere to the value from the deepest "
+             "file defining it, and nothing else",
+        oracle="models/bids_ref.py merge", stubs=[_S_JSON],
+        outside="JSON decoding; column names beyond {a,b,c} (dict.update hashes them, CrossHair enumerates)"),
+    R.H("group_merged_sidecar", _T_GROUP,
+        quick=R.tier(cells=R.product_cells(R.int_cells("VP_FD", 0, 3), R.int_cells("VP_AD", 0, 3)),
+                     env={"VP_NSC": 2, "VP_N": 1, "VP_M": 1, "VP_NDIRS": 4}, timeout=150, bound=_WALK_BOUND_Q % 1),
+        thorough=R.tier(cells=R.product_cells(R.int_cells("VP_FD", 0, 4), R.int_cells("VP_AD", 0, 4),
+                                              R.int_cells("VP_BD", 0, 4)),
+                        env={"VP_NSC": 3, "VP_N": 1, "VP_M": 2, "VP_NDIRS": 5}, timeout=1000, path_timeout=60,
+                        bound=_WALK_BOUND_T),
+        what="after BidsFileGroup.__init__, datafile_dict[path].sidecar.contents.loaded_dict == top-down merge of the "
+             "contents of the file's applicable sidecars (None when there is none); contents are fixed documents "
+             "chosen so that the merged dict determines the chain and the relative order of its members",
+        oracle="models/bids_ref.py chain + merge", stubs=[_S_BARE, _S_DIRS, _S_JSON, _S_FOUND],
+        outside="directory discovery, excluded directories, BidsDataset.validate, the command line"),
 ]
